@@ -105,6 +105,7 @@ type world struct {
 	surplus   map[string]*big.Int // balance - liabilities per contract and token at the last check (locks suite)
 	dead      bool                // a receive panicked / failed internally: the inbox is wedged, history abandoned
 	deep      *deep               // state of the deep operations (xcalls.go)
+	bl        *blState            // C10 suite bridgeliq (bridgeliq.go)
 	pending   int
 }
 
@@ -232,8 +233,10 @@ func (w *world) receiveOne(c *contractDef, s *nom.AccountBlock) {
 	balBefore, _ := w.nd.Ch.GetFrontierAccountStore(c.Addr).GetBalance(s.TokenStandard)
 	pre := w.embBefore(c, s)
 	var rel *release
+	var blp *blPre
 	if w.locks {
 		rel = w.expectedRelease(c, s)
+		blp = w.blBefore(c, s)
 	}
 	// what was really sent, fixed BEFORE the producer code runs (the receive path must not be able to change what the
 	// refund is compared with); after the run the send block is re-read from the ledger by hash
@@ -314,14 +317,20 @@ func (w *world) receiveOne(c *contractDef, s *nom.AccountBlock) {
 	out.Oracle(true, "receive-block-not-insertable", nil)
 	if ma, e := w.nd.Ch.GetFrontierMomentumStore().GetMomentumByHeight(blk.MomentumAcknowledged.Height); e == nil && ma != nil {
 		w.embAfter(c, s, pre, ma, exec.ReturnedError, blk)
+		if w.locks {
+			w.blAfter(c, s, blp, ma, exec.ReturnedError)
+		}
 		if w.locks && exec.ReturnedError == nil {
 			if isReleaseMethod(c, mname) {
 				w.checkRelease(c, s, rel, blk, ma)
-			} else if c.Name == "stake" || c.Name == "plasma" || c.Name == "htlc" || c.Name == "pillar" || c.Name == "sentinel" {
-				// any other applied call of a lock contract moves value only to the token contract (burn of consumed QSR)
+			} else if c.Name == "stake" || c.Name == "plasma" || c.Name == "htlc" || c.Name == "pillar" || c.Name == "sentinel" || c.Name == "liquidity" || c.Name == "bridge" {
+				// any other applied call of a lock contract moves value only to the token contract (burn of consumed QSR, burn
+				// of a wrapped owned token, burn of the liquidity treasury) - or, for Fund of the liquidity contract called by
+				// the spork address, to the accelerator
 				ok := true
 				for _, x := range blk.DescendantBlocks {
-					ok = ok && (x.Amount.Sign() == 0 || x.ToAddress == types.TokenContract)
+					ok = ok && (x.Amount.Sign() == 0 || x.ToAddress == types.TokenContract ||
+						(c.Name == "liquidity" && mname == definition.FundMethodName && x.ToAddress == types.AcceleratorContract && s.Address == *types.SporkAddress))
 				}
 				out.Oracle(ok, "payout-by-non-release-method", d)
 			}
